@@ -781,8 +781,17 @@ class StubModule(ModuleVal):
 
 
 def _B(name, f):
-    """Builtin from a positional function."""
-    return Builtin(name, lambda args, kw: f(*args, **kw))
+    """Builtin from a positional function.  A call shape the stub does not model is outside the subset (not a checker error)."""
+    def call(args, kw):
+        try:
+            return f(*args, **kw)
+        except TypeError as e:
+            import traceback
+            tb = traceback.extract_tb(e.__traceback__)
+            if len(tb) <= 1:          # raised by the call itself (arity / keyword mismatch), not inside the stub
+                raise OutOfSubset(f'{name}: call shape not modelled ({e})')
+            raise
+    return Builtin(name, call)
 
 
 def _dataclass(args, kw):
